@@ -39,6 +39,10 @@ def scripted (sc : Script) : Ops Log where
   set := fun _ _ _ s => (rb sc, s)
   delete := fun _ s => (rb sc, s)
   ownKeys := fun s => (.ok sc.keys, s)
+  callable := false
+  constructor := false
+  call := fun _ _ s => (.typeError, s)
+  construct := fun _ _ s => (.typeError, s)
 
 def trapName : Trap → String
   | .getPrototypeOf => "getPrototypeOf" | .setPrototypeOf => "setPrototypeOf" | .isExtensible => "isExtensible"
@@ -65,6 +69,8 @@ def showObs : Obs → String
   | .bool r => showOut showB r
   | .desc r => showOut showCur r
   | .val r => showOut (fun v => "v:" ++ showVal v) r
+  | .obj r => showOut (fun o => "v:o" ++ toString o) r
+  | .kind c k => "kind:" ++ bs c ++ bs k
   | .keys r => showOut (fun ks => "k:" ++ ",".intercalate (ks.map (fun k => match k with | .str n => "k" ++ toString n | .sym n => "y" ++ toString n))) r
 
 open GojaModel.Generated.C11 in
